@@ -15,12 +15,15 @@ schedule / hash dependent ingredients of a run are
 The theorems below show that the job list handed to the back ends — and hence the output of all six back
 ends — does not depend on 1–4, provided
 * `WFm`: per crate one output file name / mode, type names and const names unique within each crate
-  (as in single-file `C06_arrival_order`), and
-* `Unambiguous` (decidable): every crate's import set is unambiguous for `resolve_renamed` (`ImportsOK`: two
-  imports of one type name from crates that both serde-rename it agree) and for the fallback of `used_imports`
-  (`FallbackOK`: an import that does not resolve directly has at most one candidate crate),
-* for 4: `PickOK`: at most one import per referenced type name in each file.
-`C06_multi_not_full` shows that `Unambiguous` cannot be dropped.
+  (as in single-file `C06_arrival_order`).
+Nothing is assumed about the imports.  Until the `fix:` commit "resolve a type name imported from several crates the
+same way in every run" the three look-ups `find_type` (4), `resolve_renamed` (2) and the re-export fallback of
+`used_imports` (3) took the *first* match in hash order, and the theorems needed decidable hypotheses
+(`Unambiguous`, `FilesPickOK`: no type name reachable from two crates) which a kernel-checked counter-example
+showed to be necessary; that class was flagged `ambiguous` by the driver and not compared.  Each look-up now takes
+the candidate whose crate name is smallest (`Pipeline.minByKey`, `Visitor.minCrate`), the hypotheses are gone, the
+former counter-examples are regression examples below (both hash orders give the same jobs), and what remains of
+`C06_multi_not_full` is the other class: two types of the same name in one crate keep their arrival order.
 
 Hash orders are modelled by quantifying over *representatives*: `MapEq m m'` says that `m'` is the collected map
 `m` with every item vector and every hash set in another order; every theorem holds for all representatives.
@@ -75,32 +78,55 @@ theorem C06_multi_collect_file_hash_order (a a' : List ParsedData) (h : Rel₂ F
 /-- **C06, arrival order, several crates.**  For permuted arrivals the reconciled crates agree on everything
 `generate_types` reads (`view`: crate key, sorted structs / enums / aliases / consts, file name, mode), on the
 crate name, on `import_types` and `type_names` *as sets*, and on the recorded errors up to order. -/
-theorem C06_multi_arrival_order (a b : List ParsedData) (hp : a.Perm b) (hw : WFm a)
-    (hu : ImportsUnambiguous (collect a) = true) :
+theorem C06_multi_arrival_order (a b : List ParsedData) (hp : a.Perm b) (hw : WFm a) :
     (reconcile (collect a)).map view = (reconcile (collect b)).map view ∧
     Rel₂ (fun p q : Str × ParsedData => p.2.crateName = q.2.crateName ∧
         (∀ i, i ∈ p.2.importTypes ↔ i ∈ q.2.importTypes) ∧ (∀ t, t ∈ p.2.typeNames ↔ t ∈ q.2.typeNames) ∧
         p.2.errors.Perm q.2.errors)
       (reconcile (collect a)) (reconcile (collect b)) := by
-  have h := reconcile_mapEq (C06_multi_collect a b hp hw.uniform) (mapWF_collect hw) hu
+  have h := reconcile_mapEq (C06_multi_collect a b hp hw.uniform) (mapWF_collect hw)
   refine ⟨Rel₂.map_eq h fun p q _ _ hr => ?_,
     Rel₂.imp h fun _ _ _ _ hr => ⟨hr.crateName, hr.imports, hr.typeNames, hr.errors⟩⟩
   simp only [view]
   rw [hr.key, hr.structs, hr.enums, hr.aliases, hr.consts, hr.fileName, hr.multiFile]
 
-/-- **hash order of `import_types` in `resolve_renamed`**: under `ImportsOK` every permutation of the import
-list resolves every identifier alike -/
+/-- **hash order of `import_types` in `resolve_renamed`**: every permutation of the import list resolves every
+identifier alike (whatever is imported: the renaming crate with the smallest name decides) -/
 theorem C06_resolve_import_order (crate : Str) (r : Renames) (imports₁ imports₂ : List ImportedType)
-    (hok : ImportsOK r imports₁ = true) (hp : imports₁.Perm imports₂) (id : Str) :
+    (hp : imports₁.Perm imports₂) (id : Str) :
     resolveRenamed crate r imports₁ id = resolveRenamed crate r imports₂ id :=
-  resolve_perm crate r imports₁ imports₂ id hok hp
+  resolve_perm crate r imports₁ imports₂ id hp
+
+/-- what it resolves to: if some import of `id` comes from a crate that renames it, the new name given by the
+smallest such crate (by `Str.le`, Rust's `String: Ord`) -/
+theorem C06_resolve_smallest_crate (crate : Str) (r : Renames) (imports : List ImportedType) (id n : Str)
+    (h : resolveRenamed crate r imports id = some n) :
+    (∃ c, (⟨c, id⟩ : ImportedType) ∈ imports ∧ renameOf r id c = some n ∧
+      ∀ c' n', (⟨c', id⟩ : ImportedType) ∈ imports → renameOf r id c' = some n' → Str.le c c' = true) ∨
+    ((∀ c' n', (⟨c', id⟩ : ImportedType) ∈ imports → renameOf r id c' ≠ some n') ∧ renameOf r id crate = some n) := by
+  rw [MinByKey.resolveRenamed_eq] at h
+  split at h
+  · exact absurd h (by simp)
+  · cases hm : minByKey (MinByKey.renCands r imports id) with
+    | some m =>
+      rw [hm] at h
+      simp only [Option.some.injEq] at h
+      have h1 := MinByKey.mem_renCands.1 (MinByKey.minByKey_mem hm)
+      refine Or.inl ⟨m.1, h1.1, h ▸ h1.2, fun c' n' hc hr => ?_⟩
+      exact MinByKey.minByKey_le hm (c', n') (MinByKey.mem_renCands.2 ⟨hc, hr⟩ : (c', n') ∈ _)
+    | none =>
+      rw [hm] at h
+      refine Or.inr ⟨fun c' n' hc hr => ?_, h⟩
+      have : (c', n') ∈ MinByKey.renCands r imports id := MinByKey.mem_renCands.2 ⟨hc, hr⟩
+      rw [MinByKey.minByKey_eq_none.1 hm] at this
+      simp at this
 
 /-- the same for the whole of `reconcile`: any representative `m'` of the collected map (item vectors and hash
 sets in any order) reconciles to the same views -/
 theorem C06_multi_reconcile_hash_order (a : List ParsedData) (hw : WFm a)
-    (hu : ImportsUnambiguous (collect a) = true) (m' : List (Str × ParsedData)) (h : MapEq (collect a) m') :
+    (m' : List (Str × ParsedData)) (h : MapEq (collect a) m') :
     (reconcile (collect a)).map view = (reconcile m').map view := by
-  refine Rel₂.map_eq (reconcile_mapEq h (mapWF_collect hw) hu) fun p q _ _ hr => ?_
+  refine Rel₂.map_eq (reconcile_mapEq h (mapWF_collect hw)) fun p q _ _ hr => ?_
   simp only [view]
   rw [hr.key, hr.structs, hr.enums, hr.aliases, hr.consts, hr.fileName, hr.multiFile]
 
@@ -126,12 +152,29 @@ theorem C06_usedImports_firstOther (d : ParsedData) (all all' : List (Str × Lis
   usedImports_congr d d rfl all all' imports imports fo fo' (fun _ => Iff.rfl)
     fun i hi hne => contrib_congr all all' fo fo' i ha (hnf i hi hne)
 
-/-- **hash order of `all_types`**: with at most one candidate crate the fallback finds the same crate in every
-iteration order -/
-theorem C06_firstOther_hash_order (all all' : List (Str × List Str)) (cur name : Str) (hp : all.Perm all')
-    (h1 : (all.filter (cand cur name)).length ≤ 1) :
+/-- **hash order of `all_types`**: the fallback finds the same crate in every iteration order, however many
+crates define the name -/
+theorem C06_firstOther_hash_order (all all' : List (Str × List Str)) (cur name : Str) (hp : all.Perm all') :
     Generate.firstOther all cur name = Generate.firstOther all' cur name :=
-  firstOther_perm all all' cur name hp h1
+  firstOther_perm all all' cur name hp
+
+/-- which one: a crate other than the current one that defines the name, and the smallest such crate -/
+theorem C06_firstOther_smallest_crate (all : List (Str × List Str)) (cur name c : Str)
+    (h : Generate.firstOther all cur name = some c) :
+    (∃ ns, (c, ns) ∈ all ∧ c ≠ cur ∧ name ∈ ns) ∧
+      ∀ c' ns, (c', ns) ∈ all → c' ≠ cur → name ∈ ns → Str.le c c' = true :=
+  MinByKey.firstOther_spec h
+
+/-- hence `used_imports` as a whole: any two iteration orders of `import_types`, and of `all_types` where it is
+iterated (the fallback; `all_types.get(crate)` is a keyed look-up) -/
+theorem C06_usedImports_hash_order (d : ParsedData) (all all' : List (Str × List Str))
+    (imports₁ imports₂ : List ImportedType) (hi : imports₁.Perm imports₂) (hp : all.Perm all') :
+    usedImports d all imports₁ (Generate.firstOther all d.crateName) =
+      usedImports d all imports₂ (Generate.firstOther all' d.crateName) := by
+  rw [usedImports_perm d all imports₁ imports₂ _ hi]
+  have : Generate.firstOther all d.crateName = Generate.firstOther all' d.crateName :=
+    funext fun n => firstOther_perm all all' d.crateName n hp
+  rw [this]
 
 /-! ## 3. the job list of a multi-file run -/
 
@@ -142,14 +185,14 @@ ends (`run_multi_eq`: it uses `jobsWith id (collect arrivals)`) are, as far as a
 * every representative `m₁` / `m₂` of the collected maps — i.e. every iteration order of every `import_types`
   and `type_names` set (and every order of the item vectors),
 * every iteration order `σ₁` / `σ₂` of the `all_types` hash map. -/
-theorem C06_multi (a b : List ParsedData) (hp : a.Perm b) (hw : WFm a) (hu : Unambiguous (collect a) = true)
+theorem C06_multi (a b : List ParsedData) (hp : a.Perm b) (hw : WFm a)
     (m₁ m₂ : List (Str × ParsedData)) (h₁ : MapEq (collect a) m₁) (h₂ : MapEq (collect b) m₂)
     (σ₁ σ₂ : List (Str × List Str) → List (Str × List Str))
     (hσ₁ : ∀ l, (σ₁ l).Perm l) (hσ₂ : ∀ l, (σ₂ l).Perm l) :
     (jobsWith σ₁ m₁).map jobView = (jobsWith σ₂ m₂).map jobView := by
   have wf := mapWF_collect hw
-  have e1 := jobs_congr h₁ wf hu id σ₁ (fun _ => .refl _) hσ₁
-  have e2 := jobs_congr ((C06_multi_collect a b hp hw.uniform).trans h₂) wf hu id σ₂ (fun _ => .refl _) hσ₂
+  have e1 := jobs_congr h₁ wf id σ₁ (fun _ => .refl _) hσ₁
+  have e2 := jobs_congr ((C06_multi_collect a b hp hw.uniform).trans h₂) wf id σ₂ (fun _ => .refl _) hσ₂
   exact e1.symm.trans e2
 
 /-- arrivals that differ by the arrival order *and* by the hash order inside every file -/
@@ -170,14 +213,14 @@ theorem C06_multi_collect_arrEq (a b : List ParsedData) (h : ArrEq a b) (hu : Un
     (C06_multi_collect a' b h2 (uniform_of_fileEq h1 hu))
 
 /-- `C06_multi` for arrivals that also differ in every file's own hash orders -/
-theorem C06_multi' (a b : List ParsedData) (hp : ArrEq a b) (hw : WFm a) (hu : Unambiguous (collect a) = true)
+theorem C06_multi' (a b : List ParsedData) (hp : ArrEq a b) (hw : WFm a)
     (m₁ m₂ : List (Str × ParsedData)) (h₁ : MapEq (collect a) m₁) (h₂ : MapEq (collect b) m₂)
     (σ₁ σ₂ : List (Str × List Str) → List (Str × List Str))
     (hσ₁ : ∀ l, (σ₁ l).Perm l) (hσ₂ : ∀ l, (σ₂ l).Perm l) :
     (jobsWith σ₁ m₁).map jobView = (jobsWith σ₂ m₂).map jobView := by
   have wf := mapWF_collect hw
-  have e1 := jobs_congr h₁ wf hu id σ₁ (fun _ => .refl _) hσ₁
-  have e2 := jobs_congr ((C06_multi_collect_arrEq a b hp hw.uniform).trans h₂) wf hu id σ₂ (fun _ => .refl _) hσ₂
+  have e1 := jobs_congr h₁ wf id σ₁ (fun _ => .refl _) hσ₁
+  have e2 := jobs_congr ((C06_multi_collect_arrEq a b hp hw.uniform).trans h₂) wf id σ₂ (fun _ => .refl _) hσ₂
   exact e1.symm.trans e2
 
 /-! ## 4. through `Generate.run`: walk order, `find` choice, all six back ends -/
@@ -210,59 +253,59 @@ theorem RunSim.of_eq {x y : Outcome Generate.RunResult} (h : x = y) : RunSim x y
   | panic s => rfl
 
 /-- **C06, multi-file mode, whole run.**  If the files parse, then for every order in which the walker visits
-the files and every `HashSet::find` choice (`pick`) the run produces the same output files with the same
+the files and every choice `min_by_key` makes among equally minimal candidates in `find_type` (`pick`) the run
+produces the same output files with the same
 contents, for each of the six back ends (or aborts with the same parse errors, listed in another order). -/
 theorem C06_multi_run (E : Ext) (lang : Generate.LangCfg) (targetOs : List Str)
     (pick pick' : List ImportedType → Option ImportedType) (files files' : List Generate.SourceFile)
     (hf : files.Perm files') (hpk : ValidPick pick) (hpk' : ValidPick pick')
-    (hfp : FilesPickOK E { ignoredTypes := Generate.ignoredTypes lang, multiFile := true, targetOs } files)
     (a : List ParsedData)
     (ha : Generate.parseAll E { ignoredTypes := Generate.ignoredTypes lang, multiFile := true, targetOs } pick files
       = .ok a)
-    (hw : WFm a) (hu : Unambiguous (collect a) = true) :
+    (hw : WFm a) :
     RunSim (Generate.run E lang true targetOs pick files) (Generate.run E lang true targetOs pick' files') := by
   have ha' := ha
-  rw [parseAll_pick E _ hpk hpk' files hfp] at ha'
+  rw [parseAll_pick E _ hpk hpk' files] at ha'
   obtain ⟨b, hb, hab⟩ := parseAll_perm E _ pick' hf a ha'
   have hme := C06_multi_collect a b hab hw.uniform
   have wf := mapWF_collect hw
   rw [run_multi, run_multi, ha, hb]
   simp only [Outcome.bind]
-  rw [← allErrors_isEmpty_congr hme wf hu]
+  rw [← allErrors_isEmpty_congr hme wf]
   by_cases he : (allErrors (reconcile (collect a))).isEmpty = true
   · simp only [he, Bool.not_true, Bool.false_eq_true, if_false]
     apply RunSim.of_eq
-    rw [genAll_congr E lang true (jobs_congr hme wf hu id id (fun _ => .refl _) (fun _ => .refl _))]
+    rw [genAll_congr E lang true (jobs_congr hme wf id id (fun _ => .refl _) (fun _ => .refl _))]
   · simp only [he, Bool.not_false, if_true]
     show List.Perm _ _
     unfold allErrors
-    exact Rel₂.flatMap_perm (jobs_sets hme wf hu) fun _ _ _ _ hr => hr.2.2
+    exact Rel₂.flatMap_perm (jobs_sets hme wf) fun _ _ _ _ hr => hr.2.2
 
 /-- without recorded parse errors: literally the same result -/
 theorem C06_multi_run_eq (E : Ext) (lang : Generate.LangCfg) (targetOs : List Str)
     (pick pick' : List ImportedType → Option ImportedType) (files files' : List Generate.SourceFile)
     (hf : files.Perm files') (hpk : ValidPick pick) (hpk' : ValidPick pick')
-    (hfp : FilesPickOK E { ignoredTypes := Generate.ignoredTypes lang, multiFile := true, targetOs } files)
     (a : List ParsedData)
     (ha : Generate.parseAll E { ignoredTypes := Generate.ignoredTypes lang, multiFile := true, targetOs } pick files
       = .ok a)
-    (hw : WFm a) (hu : Unambiguous (collect a) = true) (hne : allErrors (reconcile (collect a)) = []) :
+    (hw : WFm a) (hne : allErrors (reconcile (collect a)) = []) :
     Generate.run E lang true targetOs pick files = Generate.run E lang true targetOs pick' files' := by
   have ha' := ha
-  rw [parseAll_pick E _ hpk hpk' files hfp] at ha'
+  rw [parseAll_pick E _ hpk hpk' files] at ha'
   obtain ⟨b, hb, hab⟩ := parseAll_perm E _ pick' hf a ha'
   have hme := C06_multi_collect a b hab hw.uniform
   have wf := mapWF_collect hw
   have he : (allErrors (reconcile (collect a))).isEmpty = true := by rw [hne]; rfl
   rw [run_multi, run_multi, ha, hb]
   simp only [Outcome.bind]
-  rw [← allErrors_isEmpty_congr hme wf hu]
+  rw [← allErrors_isEmpty_congr hme wf]
   simp only [he, Bool.not_true, Bool.false_eq_true, if_false]
-  rw [genAll_congr E lang true (jobs_congr hme wf hu id id (fun _ => .refl _) (fun _ => .refl _))]
+  rw [genAll_congr E lang true (jobs_congr hme wf id id (fun _ => .refl _) (fun _ => .refl _))]
 
-/-! ## the statement at full strength, and why it fails -/
+/-! ## the statement at full strength, and the one class on which it still fails -/
 
-/-- C06 for multi-file mode without the hypotheses on names and imports -/
+/-- C06 for multi-file mode without any hypothesis on names or imports (`UniformPerCrate` is an invariant of real
+arrivals: the crate determines the output file name and the mode) -/
 def C06_multi_full : Prop :=
   ∀ (a b : List ParsedData) (m₁ m₂ : List (Str × ParsedData))
     (σ₁ σ₂ : List (Str × List Str) → List (Str × List Str)),
@@ -270,32 +313,40 @@ def C06_multi_full : Prop :=
     (∀ l, (σ₁ l).Perm l) → (∀ l, (σ₂ l).Perm l) →
     (jobsWith σ₁ m₁).map jobView = (jobsWith σ₂ m₂).map jobView
 
-/-- the two classes of inputs on which it fails -/
+/-- the one class of inputs on which it fails: a crate with two types, or two consts, of the same name
+(decidable).  The class `Known_ambiguous_imports` (a type name reachable from two crates) that stood next to it is
+gone: see `C06_multi_imports_full`. -/
 def Known_duplicate_names (a : List ParsedData) : Prop :=
   ¬ ((∀ d ∈ a, (typeKeys (arr a d.crateName)).Nodup) ∧ (∀ d ∈ a, (constKeys (arr a d.crateName)).Nodup))
 
-def Known_ambiguous_imports (a : List ParsedData) : Prop := Unambiguous (collect a) = false
-
 instance (a : List ParsedData) : Decidable (Known_duplicate_names a) := by
   unfold Known_duplicate_names; infer_instance
-instance (a : List ParsedData) : Decidable (Known_ambiguous_imports a) := by
-  unfold Known_ambiguous_imports; infer_instance
+
+/-- **C06 in multi-file mode, every import pattern.**  The statement at full strength restricted only by "no two
+types / consts of one crate share a name": whatever is imported from wherever — the same type name from two or
+three crates, renamed by none, some or all of them, through `use`, qualified paths, `self::` / `crate::` paths or a
+re-exporting crate that is not part of the run — the jobs do not depend on the arrival order nor on any hash
+iteration order.  (Before the repair this needed `¬ Known_ambiguous_imports a` and was false without it.) -/
+def C06_multi_imports_full : Prop :=
+  ∀ (a b : List ParsedData) (m₁ m₂ : List (Str × ParsedData))
+    (σ₁ σ₂ : List (Str × List Str) → List (Str × List Str)),
+    a.Perm b → UniformPerCrate a → MapEq (collect a) m₁ → MapEq (collect b) m₂ →
+    (∀ l, (σ₁ l).Perm l) → (∀ l, (σ₂ l).Perm l) → ¬ Known_duplicate_names a →
+    (jobsWith σ₁ m₁).map jobView = (jobsWith σ₂ m₂).map jobView
 
 theorem C06_multi_partial (a b : List ParsedData) (m₁ m₂ : List (Str × ParsedData))
     (σ₁ σ₂ : List (Str × List Str) → List (Str × List Str))
     (hp : a.Perm b) (hun : UniformPerCrate a) (h₁ : MapEq (collect a) m₁) (h₂ : MapEq (collect b) m₂)
     (hσ₁ : ∀ l, (σ₁ l).Perm l) (hσ₂ : ∀ l, (σ₂ l).Perm l)
-    (k1 : ¬ Known_duplicate_names a) (k2 : ¬ Known_ambiguous_imports a) :
+    (k1 : ¬ Known_duplicate_names a) :
     (jobsWith σ₁ m₁).map jobView = (jobsWith σ₂ m₂).map jobView := by
   have hd := Classical.not_not.1 k1
-  have hu : Unambiguous (collect a) = true := by
-    unfold Known_ambiguous_imports at k2
-    cases h : Unambiguous (collect a) with
-    | true => rfl
-    | false => exact absurd h k2
-  exact C06_multi a b hp ⟨hun, hd.1, hd.2⟩ hu m₁ m₂ h₁ h₂ σ₁ σ₂ hσ₁ hσ₂
+  exact C06_multi a b hp ⟨hun, hd.1, hd.2⟩ m₁ m₂ h₁ h₂ σ₁ σ₂ hσ₁ hσ₂
 
-/-! ## non-vacuity and counter-examples -/
+theorem C06_multi_imports : C06_multi_imports_full :=
+  fun a b m₁ m₂ σ₁ σ₂ hp hun h₁ h₂ hσ₁ hσ₂ k1 => C06_multi_partial a b m₁ m₂ σ₁ σ₂ hp hun h₁ h₂ hσ₁ hσ₂ k1
+
+/-! ## non-vacuity, regression examples and the remaining counter-example -/
 
 def mkS (orig ren : Str) (sr : Bool) (fields : List (Str × RustType)) : RustStruct :=
   { id := ⟨orig, ren, sr⟩, genericTypes := [],
@@ -311,7 +362,7 @@ def fieldTypes (v : Str × List RustStruct × List RustEnum × List RustTypeAlia
     Str × Str × Bool × Option ScopedCrateTypes) : List (List Str) :=
   v.2.1.map fun s => s.fields.map fun f => tyName f.ty
 
-/-! ### a two-crate run with a cross-crate import that meets every hypothesis
+/-! ### a two-crate run with a cross-crate import
 
 crate `a` (two files): `#[serde(rename = "FooR")] struct Foo`, `struct Qux`;
 crate `b`: `use a::{Foo, Qux}; struct Bar { f: Foo, g: Qux }`. -/
@@ -334,26 +385,25 @@ theorem exArr_wf : WFm exArr := by
   · decide
   · decide
 
-theorem exArr_unambiguous : Unambiguous (collect exArr) = true := by decide +kernel
-
 /-- the hypotheses of `C06_multi` are met, and the result is not trivial: the reference to `Foo` in crate `b`
 is rewritten to crate `a`'s serde name, crate `b` imports `Qux` from `a` -/
 example : ((jobsWith id (collect exArr)).map jobView).map (fun v => (v.1, fieldTypes v, v.2.2.2.2.2.2.2.2)) =
     [(s%"a", [[], []], some []), (s%"b", [[s%"FooR", s%"Qux"]], some [(s%"a", [s%"Qux"])])] := by
   simp [jobsWith, jobView, fieldTypes, tyName, reconcile, collect, upsert, addAssign, exArr, fA1, fA2, fB, mkS,
-    reconcileOne, sortBy, List.mergeSort, collectSerdeRenames, checkField, checkType, resolveRenamed, hasRename,
-    renameOf, Str.le, Str.lt, Visitor.insertSet, usedImports, allTypes, scopedInsert, Generate.firstOther]
+    reconcileOne, sortBy, List.mergeSort, collectSerdeRenames, checkField, checkType, resolveRenamed, minByKey,
+    hasRename, renameOf, Str.le, Str.lt, Visitor.insertSet, usedImports, allTypes, scopedInsert, Generate.firstOther]
 
 /-- `C06_multi` applied: the other arrival orders, the import set of `b` iterated backwards, and the
 `all_types` map iterated backwards give the same jobs -/
 example : (jobsWith List.reverse (collect [fA2, fB, fA1])).map jobView = (jobsWith id (collect exArr)).map jobView :=
-  (C06_multi exArr [fA2, fB, fA1] (List.perm_append_comm (l₁ := [fB, fA1]) (l₂ := [fA2])) exArr_wf exArr_unambiguous _ _ (MapEq.refl _) (MapEq.refl _) id
+  (C06_multi exArr [fA2, fB, fA1] (List.perm_append_comm (l₁ := [fB, fA1]) (l₂ := [fA2])) exArr_wf _ _ (MapEq.refl _) (MapEq.refl _) id
     List.reverse (fun _ => .refl _) (fun l => List.reverse_perm l)).symm
 
-/-! ### `Unambiguous` cannot be dropped, 1: `resolve_renamed`
+/-! ### regression 1 (the former counter-example to `C06_multi_full`): `resolve_renamed`
 
-crates `a` and `b` both export a `Foo` with different serde names; crate `c` imports both and refers to `Foo`:
-the first import in hash order wins. -/
+crates `a` and `b` both export a `Foo` with different serde names; crate `c` imports both and refers to `Foo`.
+Before the repair the first import in hash order won (`Bar.f : FooA` for the order a, b and `Bar.f : FooB` for
+b, a); now crate `a` wins in both. -/
 
 def gA : ParsedData :=
   { structs := [mkS s%"Foo" s%"FooA" true []], typeNames := [s%"FooA"], crateName := s%"a", fileName := s%"a",
@@ -368,44 +418,36 @@ def impAB : List ImportedType := [⟨s%"a", s%"Foo"⟩, ⟨s%"b", s%"Foo"⟩]
 def impBA : List ImportedType := [⟨s%"b", s%"Foo"⟩, ⟨s%"a", s%"Foo"⟩]
 
 theorem cx_ab : ((jobsWith id (collect [gA, gB, gC impAB])).map jobView).map fieldTypes =
-    [[[]], [[]], [[s%"FooA"]]] := by
-  simp [jobsWith, jobView, fieldTypes, tyName, reconcile, collect, upsert, addAssign, gA, gB, gC, impAB, mkS,
-    reconcileOne, sortBy, collectSerdeRenames, checkField, checkType, resolveRenamed, hasRename,
-    renameOf, Str.le, Str.lt, Visitor.insertSet]
+    [[[]], [[]], [[s%"FooA"]]] := by decide +kernel
 
 theorem cx_ba : ((jobsWith id (collect [gA, gB, gC impBA])).map jobView).map fieldTypes =
-    [[[]], [[]], [[s%"FooB"]]] := by
-  simp [jobsWith, jobView, fieldTypes, tyName, reconcile, collect, upsert, addAssign, gA, gB, gC, impBA, mkS,
-    reconcileOne, sortBy, collectSerdeRenames, checkField, checkType, resolveRenamed, hasRename,
-    renameOf, Str.le, Str.lt, Visitor.insertSet]
-
-/-- the input is recognised as ambiguous -/
-example : Known_ambiguous_imports [gA, gB, gC impAB] := by
-  unfold Known_ambiguous_imports; decide +kernel
+    [[[]], [[]], [[s%"FooA"]]] := by decide +kernel
 
 /-- the two files `gC impAB` / `gC impBA` are the same file with its import set in two hash orders -/
 theorem gC_fileEq : FileEq (gC impAB) (gC impBA) :=
   ⟨rfl, rfl, rfl, rfl, rfl, fun i => by simp [gC, impAB, impBA, or_comm], fun _ => Iff.rfl, rfl, rfl, rfl⟩
 
-/-- **the unconditional statement is false** (kernel-checked witness: same files, same arrival order, the
-import set of crate `c` iterated in two orders ⇒ `Bar.f : FooA` vs `Bar.f : FooB`) -/
-theorem C06_multi_not_full : ¬ C06_multi_full := by
-  intro h
-  have hu : UniformPerCrate [gA, gB, gC impAB] := by unfold UniformPerCrate; decide
-  have hm : MapEq (collect [gA, gB, gC impAB]) (collect [gA, gB, gC impBA]) :=
-    C06_multi_collect_file_hash_order _ _
-      ⟨⟨rfl, rfl, rfl, rfl, rfl, fun _ => Iff.rfl, fun _ => Iff.rfl, rfl, rfl, rfl⟩,
-       ⟨rfl, rfl, rfl, rfl, rfl, fun _ => Iff.rfl, fun _ => Iff.rfl, rfl, rfl, rfl⟩, gC_fileEq, trivial⟩ hu
-  have e := h [gA, gB, gC impAB] [gA, gB, gC impAB] (collect [gA, gB, gC impAB]) (collect [gA, gB, gC impBA])
-    id id (.refl _) hu (MapEq.refl _) hm (fun _ => .refl _) (fun _ => .refl _)
-  have e' := congrArg (List.map fieldTypes) e
-  rw [cx_ab, cx_ba] at e'
-  exact absurd e' (by decide)
+theorem gABC_wf : WFm [gA, gB, gC impAB] := by
+  refine ⟨?_, ?_, ?_⟩
+  · unfold UniformPerCrate; decide
+  · decide
+  · decide
 
-/-! ### `Unambiguous` cannot be dropped, 2: the re-export fallback of `used_imports`
+/-- **both hash orders of the import set of crate `c` give the same jobs** (by the theorem, and above by
+evaluation: `Bar.f : FooA` in both) -/
+theorem regression_resolve_renamed :
+    (jobsWith id (collect [gA, gB, gC impAB])).map jobView = (jobsWith id (collect [gA, gB, gC impBA])).map jobView :=
+  have hrel : Rel₂ FileEq [gA, gB, gC impAB] [gA, gB, gC impBA] :=
+    ⟨⟨rfl, rfl, rfl, rfl, rfl, fun _ => Iff.rfl, fun _ => Iff.rfl, rfl, rfl, rfl⟩,
+     ⟨rfl, rfl, rfl, rfl, rfl, fun _ => Iff.rfl, fun _ => Iff.rfl, rfl, rfl, rfl⟩, gC_fileEq, trivial⟩
+  C06_multi' [gA, gB, gC impAB] [gA, gB, gC impBA] ⟨_, hrel, .refl _⟩
+    gABC_wf _ _ (MapEq.refl _) (MapEq.refl _) id id (fun _ => .refl _) (fun _ => .refl _)
+
+/-! ### regression 2: the re-export fallback of `used_imports`
 
 crates `a` and `b` both define `T`; crate `c` imports `T` through a crate `x` that is not part of the run
-(a re-export): `used_imports` attributes it to the first crate in `all_types` hash order that has a `T`. -/
+(a re-export).  Before the repair `used_imports` attributed it to the first crate in `all_types` hash order that
+has a `T` (`a` for the order a, b, c and `b` for the reverse); now to `a` in both. -/
 
 def hT (c : Str) : ParsedData :=
   { structs := [mkS s%"T" s%"T" false []], typeNames := [s%"T"], crateName := c, fileName := c, multiFile := true }
@@ -414,21 +456,71 @@ def hC : ParsedData :=
     importTypes := [⟨s%"x", s%"T"⟩], typeNames := [s%"Bar"], crateName := s%"c", fileName := s%"c",
     multiFile := true }
 
-example : Known_ambiguous_imports [hT s%"a", hT s%"b", hC] := by
-  unfold Known_ambiguous_imports; decide +kernel
-
-example : ((jobsWith id (collect [hT s%"a", hT s%"b", hC])).map jobView).map (·.2.2.2.2.2.2.2.2) =
+theorem regression_fallback :
+    ((jobsWith id (collect [hT s%"a", hT s%"b", hC])).map jobView).map (·.2.2.2.2.2.2.2.2) =
       [some [], some [], some [(s%"a", [s%"T"])]] ∧
     ((jobsWith List.reverse (collect [hT s%"a", hT s%"b", hC])).map jobView).map (·.2.2.2.2.2.2.2.2) =
-      [some [], some [], some [(s%"b", [s%"T"])]] := by
-  constructor <;>
-  simp [jobsWith, jobView, reconcile, collect, upsert, addAssign, hT, hC, mkS,
-    reconcileOne, Str.lt, Visitor.insertSet, usedImports, allTypes, scopedInsert,
-    Generate.firstOther]
+      [some [], some [], some [(s%"a", [s%"T"])]] := by
+  constructor <;> decide +kernel
 
-/-! ### `PickOK` (the `find` choice) — a file that imports `Foo` from two crates and refers to it -/
+/-- the crate names decide, not the order of arrival: with the crates called `b` and `a` (in that order of
+arrival) it is still `a` -/
+example : ((jobsWith List.reverse (collect [hT s%"b", hC, hT s%"a"])).map jobView).map (·.2.2.2.2.2.2.2.2) =
+      [some [], some [], some [(s%"a", [s%"T"])]] := by decide +kernel
 
-example : PickOK UnicodeOps.ascii (gC impAB) = false := by decide +kernel
+/-! ### regression 3: `find_type` — a file that imports `Foo` from two crates and refers to it
+
+`reconcile_referenced_types` keeps the import from the crate with the smallest name, whichever of the candidates
+`min_by_key` is offered first. -/
+
+example : (Visitor.reconcileReferencedTypes UnicodeOps.ascii (fun l => l.head?) (gC impAB)).importTypes = [⟨s%"a", s%"Foo"⟩] ∧
+    (Visitor.reconcileReferencedTypes UnicodeOps.ascii (fun l => l.getLast?) (gC impBA)).importTypes = [⟨s%"a", s%"Foo"⟩] := by
+  constructor <;> decide +kernel
+
+example : Visitor.reconcileReferencedTypes UnicodeOps.ascii (fun l => l.head?) (gC impAB) =
+    Visitor.reconcileReferencedTypes UnicodeOps.ascii (fun l => l.getLast?) (gC impAB) :=
+  reconcileReferencedTypes_pick _ validPick_head validPick_getLast _
+
+/-! ### the remaining class: two types of one name in one crate
+
+crate `a`, file 1: `struct X { p: u8 }`; file 2: `mod inner { struct X { q: u8 } }` (typeshare flattens modules).
+`Vec::sort` is stable and both have the key `X`: they stay in arrival order.  Replayed on the real binary with
+the collector hook (`TYPESHARE_VERIF_ORDER=0,1` / `1,0`): the two `X` change places in `a.ts`
+(open finding `duplicate-type-names-arrival-order`). -/
+
+def dX (f : Str) : ParsedData :=
+  { structs := [mkS s%"X" s%"X" false [(f, .prim .u8)]], typeNames := [s%"X"], crateName := s%"a", fileName := s%"a",
+    multiFile := true }
+
+example : Known_duplicate_names [dX s%"p", dX s%"q"] := by
+  unfold Known_duplicate_names; decide +kernel
+
+/-- the field names of the structs of a job -/
+def fieldNames (v : Str × List RustStruct × List RustEnum × List RustTypeAlias × List RustConst ×
+    Str × Str × Bool × Option ScopedCrateTypes) : List (List Str) :=
+  v.2.1.map fun s => s.fields.map fun f => f.id.original
+
+theorem dup_pq : ((jobsWith id (collect [dX s%"p", dX s%"q"])).map jobView).map fieldNames = [[[s%"p"], [s%"q"]]] := by
+  simp [jobsWith, jobView, fieldNames, reconcile, collect, upsert, addAssign, dX, mkS,
+    reconcileOne, sortBy, List.mergeSort, collectSerdeRenames, checkField, checkType,
+    Str.le, Str.lt, Visitor.insertSet]
+
+theorem dup_qp : ((jobsWith id (collect [dX s%"q", dX s%"p"])).map jobView).map fieldNames = [[[s%"q"], [s%"p"]]] := by
+  simp [jobsWith, jobView, fieldNames, reconcile, collect, upsert, addAssign, dX, mkS,
+    reconcileOne, sortBy, List.mergeSort, collectSerdeRenames, checkField, checkType,
+    Str.le, Str.lt, Visitor.insertSet]
+
+/-- **the unconditional statement is still false** (kernel-checked witness: the same two files in the two arrival
+orders ⇒ `X {p}, X {q}` vs `X {q}, X {p}`); by `C06_multi_partial` every counter-example is in
+`Known_duplicate_names` -/
+theorem C06_multi_not_full : ¬ C06_multi_full := by
+  intro h
+  have hu : UniformPerCrate [dX s%"p", dX s%"q"] := by unfold UniformPerCrate; decide
+  have e := h [dX s%"p", dX s%"q"] [dX s%"q", dX s%"p"] (collect [dX s%"p", dX s%"q"]) (collect [dX s%"q", dX s%"p"])
+    id id (List.Perm.swap _ _ _) hu (MapEq.refl _) (MapEq.refl _) (fun _ => .refl _) (fun _ => .refl _)
+  have e' := congrArg (List.map fieldNames) e
+  rw [dup_pq, dup_qp] at e'
+  exact absurd e' (by decide)
 
 /-! ### a concrete run that meets the hypotheses of `C06_multi_run`
 
@@ -459,23 +551,84 @@ theorem exRun_wf : WFm exRun := by
   · unfold UniformPerCrate; decide +kernel
   · decide +kernel
   · decide +kernel
-theorem exRun_unambiguous : Unambiguous (collect exRun) = true := by decide +kernel
 theorem exRun_noErrors : allErrors (reconcile (collect exRun)) = [] := by
   have : (allErrors (collect exRun)).isEmpty = true := by decide +kernel
   have h2 : allErrors (reconcile (collect exRun)) = allErrors (collect exRun) := by
     unfold allErrors; rw [reconcile_eq, List.flatMap_map]; rfl
   rw [h2]; exact List.isEmpty_iff.1 this
-theorem exRun_pickOK : filesPickOKb E0 ctx0 [srcA, srcB] = true := by decide +kernel
 /-- the run really has two crates and a cross-crate import -/
 example : exRun.map (fun d => (d.crateName, d.importTypes)) = [(s%"a", []), (s%"b", [⟨s%"a", s%"Foo"⟩])] := by
   decide +kernel
 
-/-- for every Go configuration: the other walk order and the other `find` choice give the same result -/
+/-- for every Go configuration: the other walk order and the other choice give the same result -/
 example (cfg : Lang.Go.Cfg) :
     Generate.run E0 (.go cfg) true [] (fun l => l.head?) [srcA, srcB] =
       Generate.run E0 (.go cfg) true [] (fun l => l.getLast?) [srcB, srcA] :=
   C06_multi_run_eq E0 (.go cfg) [] _ _ [srcA, srcB] [srcB, srcA] (List.Perm.swap _ _ _) validPick_head
-    validPick_getLast (filesPickOK_of_b E0 ctx0 _ exRun_pickOK) exRun exRun_ok exRun_wf exRun_unambiguous
-    exRun_noErrors
+    validPick_getLast exRun exRun_ok exRun_wf exRun_noErrors
+
+/-! ### a concrete *ambiguous* run (the witness of the repaired defect) through `C06_multi_run`
+
+crates `ledger` and `directory` both define `Account` (renamed `LedgerAccount` / `DirectoryAccount`); crate `app`
+imports one in `billing.rs` and the other in `audit.rs`.  On the unrepaired code 24 runs of the real binary gave two
+different `app.ts`; here: every walk order and every choice give the same run. -/
+
+open TsV.Syn in
+def renAttr (n : Str) : Attr := ⟨.list [s%"serde"] true [.nameValue [s%"rename"] (some (.str n))]⟩
+def srcLedger : Generate.SourceFile :=
+  { crateName := s%"ledger", fileName := s%"ledger", path := s%"ledger/src/lib.rs",
+    file := { attrs := [], marker := true,
+              items := [.struct [tsAttr, renAttr s%"LedgerAccount"] s%"Account" [] (.named [fld s%"x" s%"u8"])] } }
+def srcDirectory : Generate.SourceFile :=
+  { crateName := s%"directory", fileName := s%"directory", path := s%"directory/src/lib.rs",
+    file := { attrs := [], marker := true,
+              items := [.struct [tsAttr, renAttr s%"DirectoryAccount"] s%"Account" [] (.named [fld s%"y" s%"u8"])] } }
+def srcBilling : Generate.SourceFile :=
+  { crateName := s%"app", fileName := s%"app", path := s%"app/src/billing.rs",
+    file := { attrs := [], marker := true,
+              items := [.use (.path s%"ledger" (.name s%"Account")),
+                        .struct [tsAttr] s%"Invoice" [] (.named [fld s%"f" s%"Account"])] } }
+def srcAudit : Generate.SourceFile :=
+  { crateName := s%"app", fileName := s%"app", path := s%"app/src/audit.rs",
+    file := { attrs := [], marker := true,
+              items := [.use (.path s%"directory" (.name s%"Account")),
+                        .alias [tsAttr] s%"Trail" [] (.path [] s%"Account" [])] } }
+def ambFiles : List Generate.SourceFile := [srcLedger, srcDirectory, srcBilling, srcAudit]
+def ambRun : List ParsedData := getOk (Generate.parseAll E0 ctx0 (fun l => l.head?) ambFiles)
+
+theorem ambRun_ok : Generate.parseAll E0 ctx0 (fun l => l.head?) ambFiles = .ok ambRun :=
+  eq_ok_getOk (by decide +kernel)
+theorem ambRun_wf : WFm ambRun := by
+  refine ⟨?_, ?_, ?_⟩
+  · unfold UniformPerCrate; decide +kernel
+  · decide +kernel
+  · decide +kernel
+theorem ambRun_noErrors : allErrors (reconcile (collect ambRun)) = [] := by
+  have : (allErrors (collect ambRun)).isEmpty = true := by decide +kernel
+  have h2 : allErrors (reconcile (collect ambRun)) = allErrors (collect ambRun) := by
+    unfold allErrors; rw [reconcile_eq, List.flatMap_map]; rfl
+  rw [h2]; exact List.isEmpty_iff.1 this
+
+/-- crate `app` really imports `Account` from two crates that rename it differently, and both references (the
+field of `Invoice` in `billing.rs`, the alias `Trail` in `audit.rs`) resolve to the name given by `directory` (the
+smaller crate name), not to the one of the crate imported first or in the same file -/
+example : ((jobsWith id (collect ambRun)).map jobView).map (fun v => (v.1, fieldTypes v, v.2.2.2.1.map fun a => tyName a.ty)) =
+      [(s%"app", [[s%"DirectoryAccount"]], [s%"DirectoryAccount"]), (s%"directory", [[[]]], []), (s%"ledger", [[[]]], [])] ∧
+    (ambRun.filter (·.crateName == s%"app")).map (·.importTypes) =
+      [[⟨s%"ledger", s%"Account"⟩], [⟨s%"directory", s%"Account"⟩]] := by
+  constructor <;> decide +kernel
+
+/-- every Go configuration, and TypeScript (which prints the import clause): the reverse walk order and the other
+choice give the same result -/
+example (cfg : Lang.Go.Cfg) :
+    Generate.run E0 (.go cfg) true [] (fun l => l.head?) ambFiles =
+      Generate.run E0 (.go cfg) true [] (fun l => l.getLast?) ambFiles.reverse :=
+  C06_multi_run_eq E0 (.go cfg) [] (fun l => l.head?) (fun l => l.getLast?) ambFiles ambFiles.reverse
+    (List.reverse_perm _).symm validPick_head validPick_getLast ambRun ambRun_ok ambRun_wf ambRun_noErrors
+
+example : Generate.run E0 (.typescript {}) true [] (fun l => l.head?) ambFiles =
+      Generate.run E0 (.typescript {}) true [] (fun l => l.getLast?) ambFiles.reverse :=
+  C06_multi_run_eq E0 (.typescript {}) [] (fun l => l.head?) (fun l => l.getLast?) ambFiles ambFiles.reverse
+    (List.reverse_perm _).symm validPick_head validPick_getLast ambRun ambRun_ok ambRun_wf ambRun_noErrors
 
 end TsV.C06
